@@ -221,6 +221,46 @@ def _ends_in_exit(stmt):
     return False
 
 
+def dominating_cond_nodes(func, node):
+    """[(condition node, truth)] for the same facts as dominating_conditions, as AST nodes: enclosing if / ternary
+    branches, left operands of && / ||, and earlier sibling guards whose branch always leaves."""
+    out = []
+    chain = enclosing_chain(func, node) + [node]
+    for i, anc in enumerate(chain[:-1]):
+        nxt = chain[i + 1]
+        if anc["kind"] in ("IfStmt", "ConditionalOperator"):
+            ch = kids(anc)
+            if nxt is ch[1]:
+                out.append((ch[0], True))
+            elif len(ch) > 2 and nxt is ch[2]:
+                out.append((ch[0], False))
+        if anc["kind"] == "BinaryOperator" and anc.get("opcode") in ("&&", "||") and nxt is kids(anc)[1]:
+            out.append((kids(anc)[0], anc["opcode"] == "&&"))
+        if anc["kind"] == "CompoundStmt":
+            for s_ in kids(anc):
+                if s_ is nxt:
+                    break
+                if s_["kind"] == "IfStmt" and _ends_in_exit(kids(s_)[1]) and not (len(kids(s_)) > 2 and _ends_in_exit(kids(s_)[2])):
+                    out.append((kids(s_)[0], False))
+                elif s_["kind"] == "IfStmt" and len(kids(s_)) > 2 and _ends_in_exit(kids(s_)[2]) and not _ends_in_exit(kids(s_)[1]):
+                    out.append((kids(s_)[0], True))
+    # split conjunctions that hold / disjunctions that do not
+    res = []
+
+    def split(n_, truth):
+        n0 = strip(n_, casts=True)
+        if n0["kind"] == "UnaryOperator" and n0.get("opcode") == "!":
+            return split(kids(n0)[0], not truth)
+        if n0["kind"] == "BinaryOperator" and ((n0.get("opcode") == "&&" and truth) or (n0.get("opcode") == "||" and not truth)):
+            split(kids(n0)[0], truth)
+            split(kids(n0)[1], truth)
+            return
+        res.append((n0, truth))
+    for n_, t_ in out:
+        split(n_, t_)
+    return res
+
+
 def dominating_conditions(cx, func, node, _depth=0):
     """Canonical condition strings known to hold whenever `node` executes: conditions of enclosing if-branches (negated
     for else-branches) and negations of earlier sibling guards whose branch always leaves (`if (c) return;` ... node).
